@@ -240,10 +240,12 @@ def fd_oracle(case, o, root, db):
 class _Stage:
     """records what one attempt on one case reports; replayed on the real Result when the attempt is kept"""
 
-    def __init__(self):
-        self.calls, self.items, self.notes, self.target = [], [], [], None
+    def __init__(self, force_where=None):
+        self.calls, self.items, self.notes, self.target, self.force_where = [], [], [], None, force_where
 
     def _do(self, name, a, k):
+        if self.force_where and name in ('violate', 'diverge'):
+            k = {**k, 'where': self.force_where}
         if self.target is not None:
             getattr(self.target, name)(*a, **k)
         else:
@@ -290,13 +292,16 @@ def confirmed(fn):
     """run fn(ctx, res, case, ...) on a recorder; alarms are kept only when a second evaluation repeats them"""
 
     def wrapper(ctx, res, *a, **k):
-        s1 = _Stage()
+        # every alarm on a formula of the shape of engine finding F-E8 (use of cleared derivative buffers) is attributed to it:
+        # what the engine returns for such a formula depends on the content of freed memory
+        fw = W_REUSE if (a and isinstance(a[0], dict) and value_only_reuse(a[0])) else None
+        s1 = _Stage(fw)
         fn(_StageCtx(ctx, s1), s1, *a, **k)
         k1 = s1.keys()
         if not k1:
             s1.commit(ctx, res)
             return
-        s2 = _Stage()
+        s2 = _Stage(fw)
         fn(_StageCtx(ctx, s2), s2, *a, **k)
         k2 = s2.keys()
         if k1 != k2:
@@ -327,12 +332,11 @@ def check_case(ctx, res, case, fd=True, combos=None):
         return
     names = o['names']
     nfree = len(names)
-    if repeated_linutil_beta(case):
-        W = 'engine bioExprLinearUtility: one variable per parameter in the gradient'
-    else:
-        W = 'derivatives (engine path)'
-    # Hessian-related findings of a formula containing e**2 are attributed to the engine defect F-E6 (value and gradient are not)
-    WH = 'engine bioExprPowerConstant: Hessian of a square' if (square_of_nonlinear(case) and W.startswith('derivatives')) else W
+    # findings of a formula with a repeated bioLinearUtility parameter are attributed to the engine defect F-E5, Hessian-related
+    # findings of a formula containing e**2 to F-E6 (value and gradient are not), those of a formula that re-evaluates a
+    # differentiated shared node for its value only to F-E8
+    W, WH = where_of(case)
+    res.tally('value-only reuse of a differentiated node (F-E8 shape)' if W == W_REUSE else 'no value-only reuse')
     res.count(small, nontrivial=nfree >= 2 and G.depth(case) >= 3)
     res.tally(f'free={nfree}')
     for k in G.kinds_in(case):
@@ -507,6 +511,95 @@ def integrate_check(ctx, res):
         res.violate('Hessian of an Integrate formula is not the derivative of its gradient', case, H, fd, where='engine bioExprIntegrate: Hessian packing')
 
 
+VALUE_ONLY_KINDS = ('eq', 'ne', 'le', 'ge', 'lt', 'gt', 'and', 'or', 'belongsTo')
+W_REUSE = 'engine: derivatives of a shared sub-formula cleared by a value-only evaluation'
+
+
+def value_only_reuse(case):
+    """engine finding F-E8: a node that an operator differentiates is also inside a sub-formula that the engine
+    evaluates for its value only (comparison operands, ConditionalSum conditions, Elem key, logit choice and
+    availabilities).  `bioExpression::getValue()` clears the derivative buffers of the whole sub-formula, while the
+    operator that already evaluated the shared node still holds a pointer to its buffer (use after clear)."""
+    nodes = (case or {}).get('nodes')
+    if not nodes:
+        return False
+    root = case['roots'][0] if 'roots' in case else case.get('root')
+    diff, vo, stack = set(), set(), [root]
+    while stack:
+        k = stack.pop()
+        if k in diff:
+            continue
+        diff.add(k)
+        n = nodes[k]
+        c = n.get('c', [])
+        kind = n['k']
+        if kind in VALUE_ONLY_KINDS:
+            vo.update(c)
+        elif kind == 'elem':
+            vo.add(c[0])
+            stack.extend(c[1:])
+        elif kind == 'condSum':
+            vo.update(c[0::2])
+            stack.extend(c[1::2])
+        elif kind == 'logLogit':
+            m = len(n['keys'])
+            vo.add(c[0])
+            vo.update(c[1 + m:])
+            stack.extend(c[1:1 + m])
+        else:
+            stack.extend(c)
+    sub, stack = set(), list(vo)
+    while stack:
+        k = stack.pop()
+        if k in sub:
+            continue
+        sub.add(k)
+        stack.extend(nodes[k].get('c', []))
+    return bool(diff & sub)
+
+
+# F-E8: the chosen utility of the outer logit (node 0) is also the left operand of the condition of the ConditionalSum that is
+# the utility of a later alternative; the condition is false, the formula does not depend on a, b10: true gradient and Hessian 0
+REUSE_CASE = {'nodes': [{'k': 'num', 'v': -1.125, 'raw': False}, {'k': 'num', 'v': 1.8125, 'raw': False}, {'k': 'beta', 'name': 'a', 'v': 1.375, 'fixed': False},
+                        {'k': 'beta', 'name': 'b10', 'v': 1.3125, 'fixed': False}, {'k': 'times', 'c': [2, 3]}, {'k': 'num', 'v': -1.875, 'raw': False},
+                        {'k': 'le', 'c': [0, 5]}, {'k': 'condSum', 'c': [6, 4]}, {'k': 'num', 'v': 3.0, 'raw': False}, {'k': 'num', 'v': 1.0, 'raw': False},
+                        {'k': 'logLogit', 'keys': [3, 7, 12], 'full': False, 'c': [8, 0, 1, 7, 9, 9, 9]}],
+              'roots': [10], 'columns': [], 'rows': [[]], 'dict': {}}
+
+
+def reuse_worker(payload):
+    """fresh process: Hessian of REUSE_CASE (true value 0) while freed memory is filled with random bits"""
+    import os
+    import warnings
+
+    warnings.simplefilter('ignore')
+    case = payload['case']
+    worst, grad = 0.0, 0.0
+    for _ in range(400):
+        root = G.build(case)[case['roots'][0]]
+        junk = [np.frombuffer(os.urandom(8 * k), dtype=np.float64).copy() for k in (1, 2, 3, 4, 6, 8, 16)]
+        junk2 = [bytes(os.urandom(sz)) for sz in (16, 24, 32, 48, 64, 96) * 3]
+        del junk, junk2
+        out = root.get_value_and_derivatives(database=None, gradient=True, hessian=True, bhhh=False, aggregation=True, prepare_ids=True)
+        h = [abs(float(v)) for r in out.hessian for v in r]
+        g = [abs(float(v)) for v in out.gradient]
+        worst = max([worst] + [v if math.isfinite(v) else 1e308 for v in h])
+        grad = max([grad] + [v if math.isfinite(v) else 1e308 for v in g])
+    return {'H': worst, 'g': grad}
+
+
+def reuse_check(ctx, res):
+    small = small_of(REUSE_CASE, stream='nodb')
+    res.count(small, nontrivial=True)
+    out = core.run_isolated('props.c02', 'reuse_worker', {'case': REUSE_CASE})
+    if 'H' not in out:
+        res.notes.append(f'reuse worker failed: {out}'[:300])
+        return
+    if out['H'] > 1e-7 or out['g'] > 1e-9:
+        res.violate('the formula does not depend on the parameters at this point (the only term that contains them is switched off) but the reported Hessian is not 0',
+                    small, {'largest |Hessian entry| over 400 evaluations': out['H'], 'largest |gradient entry|': out['g']}, 0.0, where=W_REUSE)
+
+
 def repeated_linutil_beta(case):
     for n in (case or {}).get('nodes', []):
         if n['k'] == 'linUtil':
@@ -603,6 +696,8 @@ def free_names(case):
 
 
 def where_of(case):
+    if value_only_reuse(case):
+        return W_REUSE, W_REUSE
     W = 'engine bioExprLinearUtility: one variable per parameter in the gradient' if repeated_linutil_beta(case) else 'derivatives (engine path)'
     WH = 'engine bioExprPowerConstant: Hessian of a square' if (square_of_nonlinear(case) and W.startswith('derivatives')) else W
     return W, WH
@@ -1097,7 +1192,7 @@ def fdtool_check(ctx, res, case, x, with_biogeme=False, logg=False):
             res.violate(f'BIOGEME.check_derivatives fails on a differentiable formula: {core.exc_kind(e)}: {e}'[:300], small, str(e)[:200], 'f, g, h, gdiff, hdiff', where='BIOGEME.check_derivatives')
 
 
-MATCHERS = {'square_of_nonlinear': square_of_nonlinear, 'integrate_two_params': lambda case: 'Integrate' in str((case or {}).get('formula', '')),
+MATCHERS = {'value_only_reuse': value_only_reuse, 'square_of_nonlinear': square_of_nonlinear, 'integrate_two_params': lambda case: 'Integrate' in str((case or {}).get('formula', '')),
             'repeated_linutil_beta': repeated_linutil_beta}
 
 CORPUS = [
@@ -1193,6 +1288,7 @@ def check(ctx) -> Result:
     new_streams(ctx, res, rng, ctx.n(60, 600), ctx.n(25, 250), ctx.n(40, 400), fd_every=2 if ctx.quick else 1)
     flags_check(ctx, res)
     integrate_check(ctx, res)
+    reuse_check(ctx, res)
     ctx.batch.flush()
     return res
 
@@ -1242,7 +1338,9 @@ def replay(ctx, obj):
     c = {'nodes': case['nodes'], 'roots': [case['root']], 'columns': case['columns'], 'rows': case['rows'], 'dict': case.get('dict', {})}
     r = Result()
     stream = case.get('stream', 'db')
-    if stream == 'nodb':
+    if c['nodes'] == REUSE_CASE['nodes']:
+        reuse_check(ctx, r)
+    elif stream == 'nodb':
         nodb_check(ctx, r, c)
     elif stream == 'clash':
         clash_check(ctx, r, c, case.get('variant', ''))
